@@ -624,9 +624,16 @@ theorem combine_nodedup_spec (cfg : Cfg) {T : Int} {st st' : KSt V} {O : Pts V} 
     · exact hx
 
 
-/-- `merge<T>()`, while the key has at most 20 blocks left -/
+/-- what `merge<T>()` needs from the sort on the list `l`: a permutation in which no block lies
+    entirely before its predecessor, obtained by exchanging only blocks with disjoint time ranges -/
+def SortSpecAt (cfg : Cfg) (l : List (Block V)) : Prop :=
+  (∀ b ∈ l, BlockWF b) →
+    AdjOK (cfg.sort V l) ∧ (∀ t, restAt (cfg.sort V l) t = restAt l t) ∧
+    (∀ b, b ∈ cfg.sort V l ↔ b ∈ l) ∧ (cfg.sort V l).length = l.length
+
+/-- `merge<T>()`, for a sort that behaves on `st.blocks` -/
 theorem mergeStep_spec (cfg : Cfg) {T : Int} {st st' : KSt V} {O : Pts V} {target : Int → Option V}
-    (inv : KInv T st O target) (hm : st.merged = []) (hlen : st.blocks.length ≤ 20)
+    (inv : KInv T st O target) (hm : st.merged = []) (hsort : SortSpecAt cfg st.blocks)
     (h : mergeStep cfg st = .ok st') : StepOut cfg.size T st st' O target := by
   unfold mergeStep at h
   by_cases hg : st.blocks.length = 0 ∧ st.merged.length = 0 ∧ st.mv.length = 0
@@ -641,8 +648,8 @@ theorem mergeStep_spec (cfg : Cfg) {T : Int} {st st' : KSt V} {O : Pts V} {targe
   · rw [if_neg hg] at h
     dsimp only at h
     have hw : ∀ b ∈ st.blocks, BlockWF b := fun b hb => (inv.hb b hb).wf
-    obtain ⟨s1, s2, s3, s4⟩ := stable_spec st.blocks hw hlen
-    generalize hsorted : Sort.stable blkLess st.blocks = sorted at h s1 s2 s3 s4
+    obtain ⟨s1, s2, s3, s4⟩ := hsort hw
+    generalize hsorted : cfg.sort V st.blocks = sorted at h s1 s2 s3 s4
     have inv1 : KInv T { st with blocks := sorted } O target := by
       refine ⟨fun b hb => inv.hb b ((s3 b).mp hb), inv.hasc, inv.hle, ?_⟩
       intro t
